@@ -72,8 +72,10 @@ class JSONRPC2Connection:
     def _read_header_content_length(self, line):
         if len(line) < 2 or line[-2:] != "\r\n":
             raise JSONRPC2ProtocolError("Line endings must be \\r\\n")
-        if line.startswith("Content-Length: "):
-            _, value = line.split("Content-Length: ")
+        # Header fields follow HTTP: the name is case insensitive and the blank
+        # after the colon is optional
+        name, colon, value = line.partition(":")
+        if colon and name.strip().lower() == "content-length":
             value = value.strip()
             try:
                 return int(value)
